@@ -95,7 +95,7 @@ let run () =
   let cases = ref 0 and runs = ref 0 and pviol = ref 0 and nontrivial = ref 0 and fuelout = ref 0 and rej = ref 0 in
   let id = ref "" and pat = ref "" and flags = ref "" and ngroups = ref 0 and unicode = ref false in
   let re : regex option ref = ref None in
-  let jn = ref 0 and mism = ref 0 in
+  let jn = ref 0 and mism = ref 0 and kn = ref 0 in
   let fuel = nat_of_int_big 600 in
   (try while true do
     let line = input_line stdin in
@@ -111,6 +111,19 @@ let run () =
          if m <> x then begin
            incr mism;
            Printf.printf "MISMATCH stage=S1-classset case=%s pat=%s flags=%s detail=model-of-class-set-evaluation-differs\n" !id !pat !flags end
+       | _ -> ())
+    | "K" :: acc :: np :: _ ->
+      (* C08: the early error on [^E] against MayContainStrings of E (reference) and the flag of the class set model *)
+      (match !re with
+       | Some (RSeq (_, RSeq (RVClass (e, ic), _))) ->
+         incr kn;
+         let refd = not (vmcs e) and modeld = not (eval ic e).cs_mcs in
+         if modeld <> (acc = "1") then begin
+           incr mism;
+           Printf.printf "MISMATCH stage=S1-classset-earlyerror case=%s pat=%s flags=%s detail=model-accepts:%b\n" !id np !flags modeld end;
+         if refd <> (acc = "1") then begin
+           incr pviol;
+           Printf.printf "PROPVIOL prop=C08 case=%s pat=%s flags=%s hay=- start=0 detail=negated-class:regress-accepts:%s/ES-MayContainStrings-accepts:%b\n" !id np !flags acc refd end
        | _ -> ())
     | "REJ" :: i :: p :: f :: _ ->
       incr rej;
@@ -157,4 +170,4 @@ let run () =
     | [] -> ()
     | _ -> failwith ("bad line: " ^ line)
   done with End_of_file -> ());
-  Printf.printf "SUMMARY cases=%d runs=%d mismatches=%d nontrivial=%d propviol=%d inconclusive=%d rejected=%d classset_irs=%d\n" !cases !runs !mism !nontrivial !pviol !fuelout !rej !jn
+  Printf.printf "SUMMARY cases=%d runs=%d mismatches=%d nontrivial=%d propviol=%d inconclusive=%d rejected=%d classset_irs=%d negated_class_decisions=%d\n" !cases !runs !mism !nontrivial !pviol !fuelout !rej !jn !kn
